@@ -328,14 +328,60 @@ pub fn check(tier: Tier) -> i32 {
 	report.set("sequential_lists", json!(done));
 	report.set("sequential_failures_per_class", json!(per_class));
 	report.set("sequential_failing_lists", json!(failing));
+	// part 3: real task manager on a multi-thread runtime, level task held at a gate
+	let par_budget = Budget::new(if tier == Tier::Quick { 25.0 } else { 400.0 });
+	let par_cases = crate::props::c17par::cases(tier);
+	let (mut par_done, mut par_held, mut par_inconclusive) = (0u64, 0u64, 0u64);
+	let mut par_during: std::collections::BTreeMap<String, u64> = Default::default();
+	let mut par_seen = std::collections::BTreeSet::new();
+	for c in &par_cases {
+		if par_budget.exhausted() {
+			break;
+		}
+		match crate::props::c17par::run_guarded(c) {
+			Err(e) => {
+				eprintln!("machinery: {e}");
+				return 2;
+			}
+			Ok(crate::props::c17par::Outcome::Held(h, d)) => {
+				par_done += 1;
+				if h {
+					par_held += 1;
+					*par_during.entry(format!("{}:{d}", crate::props::c17par::GATES[c.gate])).or_default() += 1;
+				}
+			}
+			Ok(crate::props::c17par::Outcome::Inconclusive(s)) => {
+				par_inconclusive += 1;
+				eprintln!("note: C17 parallel case {c:?} inconclusive: {s}");
+			}
+			Ok(crate::props::c17par::Outcome::Violation(class, text)) => {
+				par_done += 1;
+				let class = format!("parallel:{class}");
+				let first = par_seen.insert(class.clone());
+				report.violations.push(Violation {
+					class,
+					what: if first { format!("[{c:?}] {text}") } else { String::new() },
+					replay: if first { crate::props::c17par::case_json(c) } else { J::Null },
+				});
+			}
+		}
+	}
+	report.violations.sort_by_key(|v| v.what.is_empty());
+	let par_complete = par_done as usize == par_cases.len();
+	report.set("parallel_cases", json!(par_done));
+	report.set("parallel_cases_level_task_held", json!(par_held));
+	report.set("parallel_cases_inconclusive", json!(par_inconclusive));
+	report.set("parallel_flushes_inside_held_round", json!(par_during));
 	let code = crate::props::sched::run_into(&mut report, "C17", tier, if tier == Tier::Quick { 40.0 } else { 800.0 });
 	if code != 0 {
 		return code;
 	}
 	report.add_u("evaluations", done);
 	let ex = report.coverage.get("exhaustive").and_then(|v| v.as_bool()).unwrap_or(true);
-	report.set("exhaustive", json!(ex && seq_complete));
+	report.set("exhaustive", json!(ex && seq_complete && par_complete));
+	report.add_u("evaluations", par_done);
 	let mut b: Vec<J> = vec![json!(format!("sequential stall-liveness part: {} of {} operation lists of length <= {maxlen} over {{commit, big-commit, checkpoint, drain, reopen}} with the real background task manager (memtable stall 2, level-0 stall 2), on 2 and on 3 levels; the lists include runs of 1-12 oversize (failing) commits and{}", done, lists.len(), if maxlen < 8 { " every list big-commit + 5 or 6 operations over {big-commit, reopen, checkpoint} + commit (lengths 7 and 8)" } else { " nothing beyond the full enumeration" }))];
+	b.push(json!(format!("parallel wake-up part: {par_done} of {} cases {{gate place (3) x rounds before the held one x flushes ending inside the held round (0..4) x level count (2, 3)}} with the real task manager on a 2-worker runtime; level task held in {par_held}; {par_inconclusive} inconclusive (not counted)", par_cases.len())));
 	if let Some(a) = report.coverage.get("schedule_bounds_completed").and_then(|v| v.as_array()) {
 		b.extend(a.iter().cloned());
 	}
